@@ -1,4 +1,6 @@
 import QuicProofs.Bridge.VarInt
 import QuicProofs.Lemmas.LocalIds
+import QuicProofs.Lemmas.PeerIds
+import QuicProofs.Lemmas.PeerView
 import QuicProofs.Props.C05VarInt
 import QuicProofs.Props.C13ConnectionIds
